@@ -4,6 +4,6 @@ from harness import corpus
 PROP = "C11"
 MONITORS = ("M-views",)
 def scenarios(tier):
-    return corpus.handler_coverage_corpus() + corpus.seq_family(tier) + corpus.fanout_ok_family(tier) + corpus.fanout_fail_family(tier) + corpus.bystander_family(tier) + corpus.observability_family(tier)
+    return corpus.handler_coverage_corpus() + corpus.seq_family(tier) + corpus.fanout_ok_family(tier) + corpus.fanout_fail_family(tier) + corpus.bystander_family(tier) + corpus.observability_family(tier) + corpus.store_config_family(tier)
 def run(tier, seed):
     return common.engine_check(PROP, scenarios(tier), MONITORS, tier, seed)
